@@ -230,3 +230,181 @@ Proof.
     + destruct (il_au _ _ I a Ha) as [A1 A2]. unfold au_ok. cbn [lkid lks]. split; [lia|]. intros k Hk.
       unfold find_lk in Hk. rewrite (gfind_app_old lk_id) in Hk by (cbn [lk_id nk]; lia). exact (A2 k Hk).
 Qed.
+
+Lemma keep_invL c l x : InvL c l -> (forall l', x = Ok l' -> InvL c l') -> InvL c (keep x l).
+Proof. intros I H. destruct x as [l'| |]; cbn [keep]; [apply H; reflexivity|exact I|exact I]. Qed.
+
+Lemma sweep_invL c lc items : cfg_ok c -> forall l, InvL c l -> InvL c (sweep c lc l items).
+Proof.
+  intros CK. unfold sweep. induction items as [|it items IH]; intros l I; cbn [fold_left]; [exact I|].
+  apply IH. apply keep_invL; [exact I|]. intros l' H. exact (liquidate_invL c lc l _ _ false 0 l' CK ltac:(discriminate) I H).
+Qed.
+
+Lemma AUC_ne : AUC <> VAULT. Proof. discriminate. Qed.
+Lemma LIQ_ne : LIQ <> VAULT. Proof. discriminate. Qed.
+Lemma ESMA_ne : ESMA <> VAULT. Proof. discriminate. Qed.
+Lemma COLL_ne : COLL <> VAULT. Proof. discriminate. Qed.
+
+(* ---------- transfers that leave the books and the custody row alone ---------- *)
+Record bsame (s s' : state) : Prop := mkBS {
+  bs_vaults : vaults s' = vaults s; bs_svaults : svaults s' = svaults s; bs_prods : prods s' = prods s;
+  bs_umap : umap s' = umap s; bs_vlen : vlen s' = vlen s; bs_vid : vid s' = vid s; bs_sid : sid s' = sid s;
+  bs_unsol : unsol s' = unsol s; bs_cust : forall d, bal s' VAULT d = bal s VAULT d;
+  bs_now : now s' = now s; bs_price : price s' = price s; bs_esm : esm s' = esm s; bs_snap : snap s' = snap s; bs_brk : brk s' = brk s
+}.
+
+Lemma bsame_refl s : bsame s s.
+Proof. constructor; reflexivity. Qed.
+Lemma bsame_trans s1 s2 s3 : bsame s1 s2 -> bsame s2 s3 -> bsame s1 s3.
+Proof.
+  intros A B. constructor; try (etransitivity; [apply B|apply A]);
+    intros d; rewrite (bs_cust _ _ B), (bs_cust _ _ A); reflexivity.
+Qed.
+
+Lemma send_bsame s f t d amt s' : f <> VAULT -> t <> VAULT -> send s f t d amt = Ok s' -> bsame s s' /\ sup s' = sup s.
+Proof.
+  intros Hf Ht H. apply send_spec in H. destruct H as (_ & b' & -> & Hb). split; [|reflexivity].
+  constructor; try reflexivity. intros x. ssimpl. rewrite Hb. unfold xfer.
+  destruct (Z.eqb_spec VAULT t); [congruence|]. destruct (Z.eqb_spec VAULT f); [congruence|]. cbn [andb]. lia.
+Qed.
+Lemma csend_bsame s f t d amt s' : f <> VAULT -> t <> VAULT -> (if amt >? 0 then send s f t d amt else Ok s) = Ok s' ->
+  bsame s s' /\ sup s' = sup s.
+Proof.
+  intros Hf Ht H. destruct (amt >? 0); [exact (send_bsame _ _ _ _ _ _ Hf Ht H)|]. injection H as <-. split; [apply bsame_refl|reflexivity].
+Qed.
+Lemma cburn_from_bsame s acct d amt s' : acct <> VAULT -> 0 <= amt -> (if amt >? 0 then burn_from s acct d amt else Ok s) = Ok s' ->
+  bsame s s' /\ forall x, sup s' x = sup s x - at1 d amt x.
+Proof.
+  intros Ha Hamt H. destruct (Z.gtb_spec amt 0).
+  - unfold burn_from in H. destruct (amt <? 0); [discriminate|]. destruct (bal s acct d <? amt); [discriminate|]. injection H as <-.
+    split; [|intros x; reflexivity]. constructor; try reflexivity. intros x. ssimpl. unfold at2.
+    destruct (Z.eqb_spec VAULT acct); [congruence|]. cbn [andb]. lia.
+  - injection H as <-. split; [apply bsame_refl|]. intros x. replace amt with 0 by lia. unfold at1. destruct (x =? d); lia.
+Qed.
+
+(* the part of an lstate a bid does not touch *)
+Lemma withdraw_reserve_spec l app asset amt l1 : withdraw_reserve l app asset amt = Ok l1 ->
+  exists s1 r', l1 = mkL s1 (lks l) (aus l) (lkid l) (auid l) (ereg l) (edebt l) r' (drift l) (er_mint l) (er_coll l) (er_short l) (over l) /\
+    bsame (vs l) s1 /\ sup s1 = sup (vs l).
+Proof.
+  unfold withdraw_reserve. intros H. do 3 exec1 H. injection H as <-.
+  destruct (csend_bsame (vs l) LIQ AUC asset amt st LIQ_ne AUC_ne E) as [B S].
+  eexists _, _. split; [reflexivity|]. split; assumption.
+Qed.
+
+Definition closes (l : lstate) (a : auct) (lk : lockedv) (s' : state) (r' : Z -> Z -> option Z) : lstate :=
+  mkL (upd_coll (upd_mint s' (au_app a) (lk_pair lk) (lk_debt lk) false) (au_app a) (lk_pair lk) (lk_coll lk) false)
+      (del_lk (lks l) (lk_id lk)) (del_au (aus l) (au_id a)) (lkid l) (auid l) (ereg l) (edebt l) r'
+      (add2 (drift l) (au_app a) (lk_pair lk) (lk_debt lk - lk_prin lk)) (er_mint l) (er_coll l) (er_short l)
+      (add1 (over l) (au_cout a) (lk_debt lk - lk_prin lk)).
+
+Lemma bid_spec lc l aid who paid recv closed exh topup l' : who <> VAULT ->
+  (forall k, In k (lks l) -> lk_owner k <> VAULT /\ (lk_intk k = true -> lk_keeper k <> VAULT)) ->
+  bid lc l aid who paid recv closed exh topup = Ok l' ->
+  exists a lk, find_au (aus l) aid = Some a /\ find_lk (lks l) (au_lock a) = Some lk /\
+    if closed then
+      exists s' r', l' = closes l a lk s' r' /\ bsame (vs l) s' /\ 0 <= lk_debt lk /\
+        forall x, sup s' x = sup (vs l) x - at1 (au_cout a) (lk_debt lk) x
+    else
+      exists s', l' = mkL s' (lks l) (put_au (aus l) (mkAU (au_id a) (au_app a) (au_lock a) (au_cin a) (au_cout a) (au_coll a - recv) (au_debt a - paid) (au_end a)))
+                          (lkid l) (auid l) (ereg l) (edebt l) (rsv l) (drift l) (er_mint l) (er_coll l) (er_short l) (over l) /\
+        bsame (vs l) s' /\ sup s' = sup (vs l).
+Proof.
+  intros Hw HL H. unfold bid in H. cbv zeta in H. exec1 H. exec1 H. rename M into Ma. rename M0 into Mk.
+  exists a, l0. split; [first [exact Ma|reflexivity]|]. split; [first [exact Mk|reflexivity]|].
+  destruct (gfind_some lk_id _ _ _ Mk) as [Hin _].
+  destruct (HL _ Hin) as [Ho Hkp].
+  destruct (gfind_some au_id _ _ _ Ma) as [_ Haid].
+  destruct closed.
+  - exec1 H. rename st into l1.
+    assert (L1 : exists s1 r', l1 = mkL s1 (lks l) (aus l) (lkid l) (auid l) (ereg l) (edebt l) r' (drift l) (er_mint l) (er_coll l) (er_short l) (over l) /\
+               bsame (vs l) s1 /\ sup s1 = sup (vs l)).
+    { destruct exh; [exact (withdraw_reserve_spec _ _ _ _ _ E)|]. injection E as <-. exists (vs l), (rsv l). split; [destruct l; reflexivity|].
+      split; [apply bsame_refl|reflexivity]. }
+    destruct L1 as (s1 & r' & -> & B1 & S1). clear E. cbn [vs lks aus lkid auid ereg edebt rsv drift er_mint er_coll er_short over] in H.
+    exec1 H. exec1 H. exec1 H. exec1 H. exec1 H. exec1 H.
+    match type of H with obind ?X _ = _ => destruct X as [[s5 pen]| |] eqn:E3; cbn [obind] in H; try discriminate H end.
+    assert (K : bsame st2 s5 /\ sup s5 = sup st2).
+    { destruct (lk_intk l0) eqn:Ik.
+      - destruct (fee_share _ _) as [ki|]; [|discriminate E3]. destruct (ki >? 0).
+        + destruct (lk_fee l0 - ki <? 0); [discriminate E3|].
+          destruct (send st2 AUC (lk_keeper l0) (au_cout a) ki) as [x| |] eqn:Es; cbn [obind] in E3; try discriminate E3.
+          injection E3 as <- <-. exact (send_bsame _ _ _ _ _ _ AUC_ne (Hkp eq_refl) Es).
+        + injection E3 as <- <-. split; [apply bsame_refl|reflexivity].
+      - injection E3 as <- <-. split; [apply bsame_refl|reflexivity]. }
+    destruct K as [Bk Sk]. cbv beta iota in H.
+    match type of H with obind ?X _ = _ => destruct X as [s6| |] eqn:E4; cbn [obind] in H; try discriminate H end.
+    match type of H with obind ?X _ = _ => destruct X as [s7| |] eqn:E5; cbn [obind] in H; try discriminate H end.
+    apply update_collector_spec in E5. destruct E5 as [_ ->].
+    injection H as <-.
+    destruct (csend_bsame _ _ _ _ _ _ Hw AUC_ne E) as [Ba Sa].
+    destruct (csend_bsame _ _ _ _ _ _ AUC_ne Hw E0) as [Bb Sb].
+    assert (Hd0 : 0 <= lk_debt l0) by lia. destruct (cburn_from_bsame _ _ _ _ _ AUC_ne Hd0 E1) as [Bc Sc].
+    destruct (csend_bsame _ _ _ _ _ _ AUC_ne Ho E2) as [Bd Sd].
+    destruct (csend_bsame _ _ _ _ _ _ AUC_ne COLL_ne E4) as [Be Se].
+    exists s6, r'. split; [unfold closes; rewrite Haid; reflexivity|].
+    split; [exact (bsame_trans _ _ _ B1 (bsame_trans _ _ _ Ba (bsame_trans _ _ _ Bb (bsame_trans _ _ _ Bc (bsame_trans _ _ _ Bd (bsame_trans _ _ _ Bk Be))))))|].
+    split; [lia|]. intros x. rewrite Se, Sk, Sd, Sc, Sb, Sa, S1. reflexivity.
+  - do 3 exec1 H. injection H as <-.
+    destruct (csend_bsame _ _ _ _ _ _ Hw AUC_ne E) as [Ba Sa].
+    destruct (csend_bsame _ _ _ _ _ _ AUC_ne Hw E0) as [Bb Sb].
+    exists st0. split; [reflexivity|]. split; [exact (bsame_trans _ _ _ Ba Bb)|]. rewrite Sb, Sa. reflexivity.
+Qed.
+
+Lemma bsame_view c l s' : InvL c l -> bsame (vs l) s' -> Inv01 c (shift s' (oc_of l) (opc_of l) (opm_of l)).
+Proof.
+  intros I B. apply (shift_env c (vs l) s' _ _ _ (il_view _ _ I)); try apply B.
+  intros d. rewrite (bs_cust _ _ B), (bs_unsol _ _ B). reflexivity.
+Qed.
+
+Lemma lkin_sym a p k a0 : a0 = lk_app k -> lkin a p k = (a =? a0) && (p =? lk_pair k).
+Proof. intros ->. unfold lkin. rewrite (Z.eqb_sym a), (Z.eqb_sym p). reflexivity. Qed.
+
+Lemma bid_invL c lc l aid who paid recv closed exh topup l' : who <> VAULT -> InvL c l ->
+  bid lc l aid who paid recv closed exh topup = Ok l' -> InvL c l'.
+Proof.
+  intros Hw I H.
+  assert (HL : forall k, In k (lks l) -> lk_owner k <> VAULT /\ (lk_intk k = true -> lk_keeper k <> VAULT)).
+  { intros k Hk. destruct (il_lk _ _ I k Hk) as (H1 & H2 & _). split; assumption. }
+  destruct (bid_spec lc l aid who paid recv closed exh topup l' Hw HL H) as (a & lk & Ma & Mk & Hc).
+  destruct (gfind_some lk_id _ _ _ Mk) as [Hkin Hkid]. destruct (gfind_some au_id _ _ _ Ma) as [Hain Haid].
+  destruct (il_lk _ _ I lk Hkin) as (K1 & K2 & K3 & K4).
+  destruct (il_au _ _ I a Hain) as [A1 A2]. destruct (A2 lk Mk) as [A3 A4].
+  destruct closed.
+  - destruct Hc as (s' & r' & -> & B & Hd & Hs). unfold closes.
+    assert (Hpf : pfound s' (au_app a) (lk_pair lk) = true) by (unfold pfound; rewrite (bs_prods _ _ B), A4; exact K4).
+    destruct (upd_mint_spec s' (au_app a) (lk_pair lk) (lk_debt lk) false Hpf) as (f1 & -> & Hf11 & Hf12 & Hf13 & Hf14).
+    assert (Hpf2 : pfound (set_prods s' f1) (au_app a) (lk_pair lk) = true) by (rewrite pfound_set, Hf11, <- pfound_f; exact Hpf).
+    destruct (upd_coll_spec _ (au_app a) (lk_pair lk) (lk_coll lk) false Hpf2) as (f2 & -> & Hf21 & Hf22 & Hf23 & Hf24).
+    ssimpl.
+    constructor; cbn [vs lks aus lkid auid].
+    + apply (beffect_inv01 c _ _ BNone (bsame_view c l s' I B)). unfold view. cbn [vs].
+      apply beffect_shift; cbn [bc_pre bc_wf bc_vaults bc_svaults bc_din bc_dout bc_ids bc_pair touched]; ssimpl; try reflexivity; try exact Logic.I.
+      * intros a' p'. unfold opc_of, lock_coll. cbn [lks er_coll]. unfold del_lk. rewrite (gdel_wsum lk_id _ _ _ lk) by (rewrite Hkid; exact Mk).
+        rewrite (lkin_sym a' p' lk (au_app a) A4). unfold pcoll at 1. ssimpl. fold (fcoll f2 a' p'). rewrite Hf22. ssimpl. rewrite Hf12, <- pcoll_f.
+        destruct ((a' =? au_app a) && (p' =? lk_pair lk)); lia.
+      * intros a' p'. unfold opm_of, lock_prin, add2. cbn [lks er_mint drift]. unfold del_lk. rewrite (gdel_wsum lk_id _ _ _ lk) by (rewrite Hkid; exact Mk).
+        rewrite (lkin_sym a' p' lk (au_app a) A4). unfold pmint at 1. ssimpl. fold (fmint f2 a' p'). rewrite Hf23. ssimpl. rewrite Hf13, <- pmint_f.
+        destruct ((a' =? au_app a) && (p' =? lk_pair lk)); lia.
+      * intros a' p'. unfold pids at 1. ssimpl. fold (fids f2 a' p'). rewrite Hf24. ssimpl. rewrite Hf14. reflexivity.
+      * intros d. unfold oc_of. cbn [er_short]. destruct (_ =? d); lia.
+    + intros v Hv. apply (il_owner _ _ I). rewrite <- (bs_vaults _ _ B). exact Hv.
+    + apply gdel_sorted. exact (il_sorted _ _ I).
+    + pose proof (il_lkid _ _ I) as HF. rewrite Forall_forall in *. intros k Hk. apply (gdel_in lk_id) in Hk. exact (HF _ Hk).
+    + intros k Hk. apply (gdel_in lk_id) in Hk. destruct (il_lk _ _ I k Hk) as (H1 & H2 & H3 & H4). repeat split; try assumption; try lia.
+      cbn [vs]. unfold pfound. ssimpl. fold (ffound f2 (lk_app k) (lk_pair k)). rewrite Hf21. ssimpl. rewrite Hf11. unfold ffound. rewrite (bs_prods _ _ B). exact H4.
+    + intros a' Ha'. apply (gdel_in au_id) in Ha'. destruct (il_au _ _ I a' Ha') as [B1 B2]. split; [exact B1|]. cbn [lks]. intros k Hk.
+      destruct (Z.eq_dec (au_lock a') (lk_id lk)) as [Eq|Ne].
+      * unfold find_lk, del_lk in Hk. rewrite Eq, (gfind_gdel_same lk_id) in Hk by (apply sorted_nodup; exact (il_sorted _ _ I)). discriminate.
+      * unfold find_lk, del_lk in Hk. rewrite (gfind_gdel_other lk_id) in Hk by exact Ne. exact (B2 k Hk).
+  - destruct Hc as (s' & -> & B & Hs).
+    constructor; cbn [vs lks aus lkid auid].
+    + exact (bsame_view c l s' I B).
+    + intros v Hv. apply (il_owner _ _ I). rewrite <- (bs_vaults _ _ B). exact Hv.
+    + exact (il_sorted _ _ I).
+    + exact (il_lkid _ _ I).
+    + intros k Hk. destruct (il_lk _ _ I k Hk) as (H1 & H2 & H3 & H4). repeat split; try assumption; try lia.
+      cbn [vs]. unfold pfound. rewrite (bs_prods _ _ B). exact H4.
+    + intros a' Ha'. apply (gput_in au_id) in Ha'. destruct Ha' as [->|Ha']; [|exact (il_au _ _ I a' Ha')].
+      split; [exact A1|]. exact A2.
+Qed.
